@@ -470,6 +470,29 @@ int main(int argc, char** argv) {
       std::string s; for (int i = 0; i < 3; ++i) { s += std::string(i ? "," : "") + "U<-" + perms[p][i]; } s += ",res";
       add_union(tasks, mk, triples[ti], s, cap, 92);
     }
+    // pseudo-exact unions: max_k so large that the gadget never overflows, so get_result() must decide between the same-tau
+    // shortcut (mark_moving_gadget_coercer) and migrate_marked_items_by_decreasing_k from the outer-tau bookkeeping alone;
+    // operands with equal and with different tau, exact ones in between, every feeding order
+    {
+      std::vector<OperandSpec> pe;
+      pe.push_back(opnd(2, wl(1, 1, 1, 1)));        // tau 2
+      pe.push_back(opnd(2, wl(1, 1, 1)));           // tau 1.5
+      pe.push_back(opnd(2, wl(1, 1, 2)));           // tau 2 again, different n
+      pe.push_back(opnd(3, wl(3, 2, 1)));           // exact
+      pe.push_back(opnd(2, wl(1, 10, 1)));          // estimating with a heavy item (tau 2, one H item)
+      pe.push_back(opnd(3, wl(1, 1, 1, 1, 1, 1)));  // tau 2 with r = 3
+      for (size_t a = 0; a < pe.size(); ++a) for (size_t b = a; b < pe.size(); ++b) for (int ord = 0; ord < 2; ++ord) {
+        if (a == b && ord) continue;
+        std::vector<OperandSpec> sp; sp.push_back(pe[a]); sp.push_back(pe[b]);
+        add_union(tasks, 16, sp, ord ? "U<-B,res,U<-A,res" : "U<-A,res,U<-B,res", cap, 70);
+      }
+      const size_t tr[4][3] = {{0, 3, 1}, {0, 1, 2}, {4, 3, 5}, {1, 5, 4}};
+      for (int ti = 0; ti < (q ? 2 : 4); ++ti) for (int p = 0; p < 6; ++p) {
+        std::vector<OperandSpec> sp; for (int i = 0; i < 3; ++i) sp.push_back(pe[tr[ti][i]]);
+        std::string s; for (int i = 0; i < 3; ++i) { s += std::string(i ? "," : "") + "U<-" + perms[p][i]; } s += ",res";
+        add_union(tasks, 16, sp, s, cap, 72);
+      }
+    }
     // rvalue feeding, serialization of operand and of the union between feeds
     for (uint32_t mk = 2; mk <= 3; ++mk) {
       std::vector<OperandSpec> sp; sp.push_back(menu[2][3]); sp.push_back(menu[3][4]);
